@@ -40,6 +40,7 @@ def run(ctx):
     ctx.step(drain, ctx)
     ctx.step(shared, ctx)
     ctx.step(capture, ctx)
+    ctx.step(exception_identity, ctx, "C06.exc")
     ctx.step(common.raii_only, ctx, "C06.raii", ["deferred_guarded.hpp"], floor=20)
     ctx.step(common.witnesses, ctx, "C06.witness", ["C06"])
 
@@ -320,6 +321,30 @@ def shared(ctx):
         ctx.ob(rid, ok, f.where, "load goes through lock_shared (and therefore through the drain)", "", fn=f.label, inst=f.qname)
     if n == 0:
         ctx.broken("no shared acquisition method of deferred_guarded instantiated")
+
+
+def exception_identity(ctx, rid):
+    """what the future rethrows is the exception the user function threw: every handler that stores into the promise
+    captures with std::current_exception() (make_exception_ptr(e) of a caught base-class reference copies by the
+    static type and slices the user's exception)"""
+    ctx.rule(rid, "exceptions are handed to the promise as std::current_exception()", floor=2)
+    n = 0
+    for f in ctx.fb.functions():
+        if not f.file.endswith("/deferred_guarded.hpp"):
+            continue
+        for st in f.stmts.values():
+            if st["k"] == "CXXMemberCallExpr" and (st.get("callee") or {}).get("name") == "set_exception" and st["args"]:
+                a = unwrap(f, f.s(st["args"][0]))
+                while a is not None and a["k"] in CTORS and len(a["args"]) == 1:
+                    a = unwrap(f, f.s(a["args"][0]))
+                ok = a is not None and a["k"] == "CallExpr" and callee_fq(a) == "std::current_exception"
+                n += 1
+                ctx.ob(rid, ok, f.loc(st), "the promise receives the in-flight exception object itself",
+                       "" if ok else "argument is %s: the stored exception is a copy made by static type, the user's exception "
+                       "type and payload are lost" % (callee_fq(a) if a is not None and a["k"] == "CallExpr" else (a or {}).get("k")),
+                       fn=f.label, inst=f.qname)
+    if n == 0:
+        ctx.broken("no promise.set_exception call in deferred_guarded.hpp (anchor vanished)")
 
 
 def capture(ctx, rid="C06.capture"):
